@@ -415,6 +415,30 @@ def check_case(case):
                 if msg:
                     bad("antitarget:subdivide", f"{c}: {msg}")
                     break
+        # ---- command-line tier (a quarter of the cases): `cnvkit.py target` / `antitarget` on written BED files = the
+        # library calls on the same files (the antitarget command is given the target command's output, as in the pipeline)
+        if gen.pick(case, "cli", 4) == 0 and not out and nonempty:
+            from vk import cli
+
+            bpath = os.path.join(d, "baits.bed")
+            with open(bpath, "w") as fh:
+                for b in case["baits"]:
+                    fh.write("\t".join(map(str, b)) + "\n")
+            for split in (False, True):
+                diff = cli.target_diff(bpath, d, bool(case["short"]), split, case["tavg"], ann, tag="t%d" % split)
+                if diff:
+                    bad("cli:target", diff)
+                    break
+            if not out:
+                apath = None
+                if case["access"]:
+                    apath = os.path.join(d, "access.bed")
+                    with open(apath, "w") as fh:
+                        for r in case["access"]:
+                            fh.write("\t".join(map(str, r)) + "\n")
+                diff = cli.antitarget_diff(os.path.join(d, "t1.cli.bed"), apath, d, case["avg"], case["min"])
+                if diff:
+                    bad("cli:antitarget", diff)
     finally:
         shutil.rmtree(d, ignore_errors=True)
     return out
